@@ -566,6 +566,32 @@ func witnessF92(rec *ev.Rec) {
 	})
 }
 
+// fLrNoOperandID: the operand of a leafref predicate does not exist at all. XPath compares with an empty
+// node-set (false for every entry), ygot used the empty string as key value and selected the entry whose key
+// IS the empty string.
+const fLrNoOperandID = "F100-leafref-predicate-unset-operand"
+
+func witnessF100(rec *ev.Rec) {
+	rec.Witness(fLrNoOperandID, func() (bool, string) {
+		_, root, top := vt("vtu")
+		k := child(top, "Keyed")
+		mk2 := mustField(k, "Mk2")
+		ex := model.NewEntry(mk2, []model.Val{str(""), {K: model.KUint32, U: 1}})
+		sub := mustField(ex.N, "Sub")
+		ex.N.List["Sub"] = []*model.Entry{model.NewEntry(sub, []model.Val{{K: model.KInt16, I: 7}})}
+		k.List["Mk2"] = []*model.Entry{ex}
+		refs := child(top, "Refs")
+		refs.Leaf["PickSub"] = model.Val{K: model.KInt16, I: 7} // pick-a stays unset
+		if d := model.Dangling(root); len(d) != 1 {
+			return false, fmt.Sprintf("HARNESS-BUG: reference evaluator finds %v", d)
+		}
+		if e := validate(model.Build(root)); e == nil {
+			return true, `vtu mk2[a="",b=1]/sub[id=7], refs/pick-a unset, refs/pick-sub = 7 (path mk2[a=current()/../pick-a]/sub/id): Validate() = nil although the predicate compares with a node that does not exist`
+		}
+		return false, ""
+	})
+}
+
 func witnessF51(rec *ev.Rec) {
 	rec.Witness(fWKeyID, func() (bool, string) {
 		v, root, top := vt("vtw")
